@@ -207,8 +207,66 @@ def mark_of_marks_section(ctx):
             ctx.corr_mismatch(case, "Gallina propagate_all_p (Geometry/Propagate.v, promoted component supplied) differs from PropagateAnchorsFilter's anchors (code %s)" % v)
 
 
+def ipropagate_section(ctx):
+    """anchor propagation in its INTERPOLATABLE form, on families with a sparse master: Regular and Bold hold a -> Y -> X (a
+    nested composite), the sparse master in between holds a and Y but not X; Y carries hand-placed anchors in the full masters or
+    nowhere.  In EVERY master each composite ends up with the anchors the transcription (Geometry/Propagate.v, run on that master's
+    own glyph set) gives it, hand-placed anchors stay, and a second run adds nothing"""
+    from ufo2ft.util import _GlyphSet
+    from ufo2ft.filters.propagateAnchors import PropagateAnchorsIFilter
+    cases, meta = [], []
+    one = (Fr(1), Fr(0), Fr(0), Fr(1))
+    sq = lambda w: [[(Fr(0), Fr(0), "line"), (Fr(w - 50), Fr(0), "line"), (Fr(w - 50), Fr(300), "line"), (Fr(0), Fr(300), "line")]]
+    for i in range(ctx.budget(8, 16)):
+        lib = ["ufoLib2", "defcon"][i % 2]
+        own = (i // 2) % 2 == 0                      # Y has hand-placed anchors in the full masters
+        sparse_at = [1, 1, 0, 2][(i // 4) % 4]       # position of the sparse master in the list
+
+        def master(k, sparse):
+            w = 350 + 50 * k
+            gl = [{"name": "a", "unicodes": [0x61], "width": Fr(w), "contours": sq(w), "components": [],
+                   "anchors": [("top", Fr((w - 50) // 2), Fr(300)), ("bottom", Fr((w - 50) // 2), Fr(0))]},
+                  {"name": "Y", "unicodes": [], "width": Fr(w), "contours": [], "components": [("a", one + (Fr(20 + k), Fr(0)))],
+                   "anchors": [("top", Fr((w - 50) // 2 + 23), Fr(310))] if own and not sparse else []}]
+            if not sparse:
+                gl.append({"name": "X", "unicodes": [], "width": Fr(w), "contours": [], "anchors": [],
+                           "components": [("Y", (Fr(1, 2), Fr(0), Fr(0), Fr(1, 2), Fr(5), Fr(7 + k)))]})
+            return {"glyphs": gl, "glyphOrder": [g["name"] for g in gl]}
+        order = [0, 1, 2]
+        descs = [master(k, k == sparse_at) for k in order]
+        case = {"ifilter": "PropagateAnchorsIFilter", "lib": lib, "sparse_master_at": sparse_at, "Y_has_own_anchors_in_full_masters": own,
+                "masters": [jsonable(d) for d in descs]}
+        ctx.count(); ctx.klass("interpolatable propagate: sparse master at %d, Y %s" % (sparse_at, "with own anchors" if own else "bare")); ctx.nontriv(("ipa", i, ctx.scale))
+        try:
+            fonts = [build_font(d, lib) for d in descs]
+            gsets = [_GlyphSet.from_layer(f, copy=True) for f in fonts]
+            before = [geom.snapshot_glyphset(g) for g in gsets]
+            PropagateAnchorsIFilter()(fonts, gsets)
+            after = [geom.snapshot_glyphset(g) for g in gsets]
+            again = PropagateAnchorsIFilter()(fonts, gsets)
+            after2 = [geom.snapshot_glyphset(g) for g in gsets]
+        except Exception as e:
+            ctx.spec_failure(case, "PropagateAnchorsIFilter raised %s: %s\n%s" % (type(e).__name__, e, traceback.format_exc()[-1000:]))
+            continue
+        if again or after2 != after:
+            ctx.spec_failure(dict(case, second_run_modified=sorted(again)), "a second run of the interpolatable propagation modified %r" % sorted(again))
+        for k, (b, a) in enumerate(zip(before, after)):
+            nm = [g["name"] for g in b]
+            cases.append(G.tup(G.lst([], "str"), G.lst([G.s(n) for n in nm], "str"), geom.g_glyphset(b), geom.g_glyphset(a), g_promo([])))
+            meta.append(dict(case, master=k, anchors_after={g["name"]: jsonable(g["anchors"]) for g in a}))
+    pv = ctx.coq_eval("From U2F Require Import Base.Prelude Geometry.Model Geometry.Propagate.",
+                      "fun c : (list str * list str * glyphset * glyphset * list (str * nat)) => let '(mk, incl, gs, gs', promo) := c in "
+                      "match propagate_all_p mk promo incl gs with None => 4 | Some r => if glyphset_anchors_eqb r gs' then 3 else 2 end",
+                      cases, chunk=8, tag="IPropagate")
+    for v, case in zip(pv, meta):
+        if v is not None and v != 3:
+            ctx.spec_failure(case, "master %d: after the interpolatable propagation the glyphs' anchors are %r, not what propagating within that "
+                                   "master gives (Geometry/Propagate.v)" % (case["master"], case["anchors_after"]))
+
+
 def explore(ctx):
     ifilter_section(ctx)
+    ipropagate_section(ctx)
     mark_of_marks_section(ctx)
     from ufo2ft.util import _GlyphSet
     from ufo2ft.filters.decomposeComponents import DecomposeComponentsFilter
